@@ -19,7 +19,19 @@ structure TrackParams (OR : Type) where
   tbOf : List OR → List (List TRes)
 
 /-- the tracking part of `sem` is `evaluate_tracking` on `[previous bucket, current bucket]` per label with
-the current frame's ground-truth counts -/
+the current frame's ground-truth counts.
+
+The buckets on the right are divided by `p.labels`, the MANAGER's target labels; `evaluate_frame` divides the current
+and the previous object results by `critical_object_filter_config.target_labels` (`perception_frame_result.py`:
+`divide_objects(previous_result.object_results, critical…target_labels)`, `tracking_results.get(label, [])`).  NOT
+guaranteed by the code; when the critical labels differ from the manager's (run against /repo, tracking task):
+* permutation / superset: the tracking scores are unchanged (`TrackingMetricsScore.__init__` reads
+  `object_results_dict[target_label]` by key; a label of the previous frame's dict missing in the current one is filled
+  with `[]` by `.get`);
+* a manager label not covered: `KeyError` in `TrackingMetricsScore.__init__` inside `evaluate_frame`, before the result is
+  appended — `add_frame_result` raises and stores nothing (same mechanism as for `LabelsAgree`, see its doc comment and
+  `Properties/C13Labels.lean`).
+So `heap_refines_tracking_machine` is about calls whose critical filter is over the manager's labels. -/
 def TracksBy (sem : HSem Est OR C (List TScore)) (p : TrackParams OR) : Prop :=
   ∀ c ors gts prev,
     sem.trackOf c ors gts prev = frameTrack p.labels p.cfgs (prev.map p.tbOf) (p.tbOf ors) (sem.detOf c ors gts)
